@@ -41,6 +41,15 @@ objs=[(2.0+1j)*f*inner(u,v)*dx + 1j*inner(grad(u),grad(v))*dx + inner(u,v)/(2j)*
 m=mesh("triangle"); V=space(m,"P",1); v=TestFunction(V); f=Coefficient(V)
 objs=[inner(sqrt(f)+ln(f+3.0)+sin(f)*cosh(f)+f**2.5, v)*dx]'''),
 ]
+COMPLEX_ONLY += [
+    # complex literals in every syntactic position (divisor, numerator, exponent base, argument), purely imaginary ones included
+    corpus._c("c09_imaginary_literal_positions", '''
+m=mesh("triangle"); V=space(m,"P",1); v=TestFunction(V); f=Coefficient(V); g=Coefficient(V); k=Constant(m)
+objs=[f/(2j)*dx + conj(f)*g/(-4j)*dx + (g/(0.5j)+f)*dx, inner(f/(2j) + k/(0.25j) - (3j)/(g+2.0), v)*dx, inner(f/(1+2j) + (2j)*f - g*(-1.5j), v)*dx]'''),
+    corpus._c("c09_conj_real_imag_abs", '''
+m=mesh("triangle"); V=space(m,"P",1); v=TestFunction(V); f=Coefficient(V); g=Coefficient(V)
+objs=[inner(f*conj(g) + real(f)*g + abs(f) + real(f)*imag(g), v)*dx, (f*conj(g) + imag(f))*dx]'''),
+]
 MUST_REJECT = [
     corpus._c("c09_erf_complex", '''
 m=mesh("triangle"); V=space(m,"P",1); v=TestFunction(V); f=Coefficient(V)
